@@ -226,8 +226,8 @@ def run(ctx: core.Ctx) -> int:
         cases.append({"tid": i + 1, "p": p, "label": label, "seed": ctx.seed * 97 + i,
                       "stacked": [None, "tight", "spaced"][i % 3],
                       "home": [".", "subprojects", "LICENSES/x", ".", "my dir/.reuse"][i % 5],
-                      "rootname": ["root", "root", "subprojects", "LICENSES", "root", ".reuse", "COPYING", "x.license"][i % 8],
-                      "copyname": [None, "subprojects", "other", "LICENSES", ".git", "a.spdx", "REUSE.toml"][i % 7],
+                      "rootname": ["root", "pr[1]oj", "subprojects", "LICENSES", "root", ".reuse", "COPYING", "x.license", "what?*"][i % 9],
+                      "copyname": [None, "subprojects", "other", "LICENSES", ".git", "a.spdx", "REUSE.toml", "we[i]rd"][i % 8],
                       "dup_license": i % 6 == 5,
                       "scandir_seeds": 2 if q else 4,
                       "scheds": rnd.sample(scheds, min(len(scheds), 3 if q else 8)),
@@ -251,7 +251,7 @@ def run(ctx: core.Ctx) -> int:
         distinct_nontrivial=len({e["label"] for e in events}) * 2,
         rule="trees: seeded Lint.tla states (REUSE.toml), TLC-sampled Precedence chains and Inventory projects (dep5), a "
              "third with stacked comment terminators; checkouts below and in directories with names that mean something "
-             "inside a project (subprojects, LICENSES, .reuse, COPYING, *.license), and a copy of the contents under another "
+             "inside a project or to glob (subprojects, LICENSES, .reuse, COPYING, *.license, pr[1]oj, what?*), and a copy of the contents under another "
              "name; settings per tree: serial, TLC-simulated LintPool schedules run by "
              "the replay pool, the real pool with 1..16 workers (recorded), permuted directory listings, five root / cwd "
              "spellings, PYTHONHASHSEED values in fresh interpreters; lint --json and spdx; distinct = trees x {lint, spdx}",
